@@ -89,6 +89,7 @@ def SqlE.ok (T : SqlTables) (fs : List FieldDecl) (hasPrec : Bool) (ls : List St
   | .quoteBytes f => clsOf fs f == some .bytes
   | .boolUpper f => clsOf fs f == some .bool
   | .local v => ls.contains v
+  | .spaceAfterInt e => e.ok T fs hasPrec ls
 
 /-- the hand-written bodies: exactly the (name, source text) pairs `customSql` implements, and the fields they read
     have the class they are read at (`OptionsDef` also reads `Value` of a `BoolLiteral` child as a bool) -/
@@ -173,6 +174,7 @@ def SqlE.need (T : SqlTables) (c : SqlCtx) : SqlE → Bool
     match c.str f with
     | some s => !s.isEmpty
     | none => false
+  | .spaceAfterInt e => e.need T c
   | _ => true
 
 def customNeed (c : SqlCtx) (name src : String) : Bool :=
@@ -616,6 +618,11 @@ theorem SqlE.eval_total {T : SqlTables} (isPrint : Nat → Bool) {c : SqlCtx} (h
   | .local v, h, _ => by
     simp only [SqlE.ok, List.contains_iff_mem] at h
     exact hL v h
+  | .spaceAfterInt e, h, hn => by
+    simp only [SqlE.ok] at h
+    simp only [SqlE.need] at hn
+    obtain ⟨x, hx⟩ := SqlE.eval_total isPrint hc hK hP hL e h hn
+    simp only [SqlE.eval, hx, Option.map_some]; exact ⟨_, rfl⟩
 
 /-! ### The hand-written bodies -/
 
@@ -869,6 +876,7 @@ def SqlE.fields : SqlE → List String
   | .quoteBytes f => [f]
   | .boolUpper f => [f]
   | .local _ => []
+  | .spaceAfterInt e => e.fields
 
 /-- the fields of the receiver the hand-written bodies read.  HAND-LISTED, next to the hand-written semantics
     (`customSql` in MF/Model/Print.lean) and keyed like it by type name and source text: these are the fields
